@@ -34,6 +34,8 @@ func specC13() *propertySpec {
 			{"C13-R5", "deterministic: nondeterminism census of the generation closure", func(r *Run) { nondetCensus(r, "generation", []string{"<generation>"}, false) }},
 			{"C13-R6", "discarded-attempt-may-be-empty: the 'group did not use any data' assertion of endGroup cannot fire for a discarded group, in either recording mode: an attempt that ran out of input (or skipped) before its first draw is rejected, not reported as a failure", ruleEndGroupAssertExempt},
 			{"C13-R7", "same-generator-for-every-input: the fuzz target is called many times in one process with one set of generators: the draws are a function of the input bytes only if no draw stores through or hands out generator-owned storage (shared with C15-R3)", ruleC15R3},
+			{"C13-R8", "falsified-means-failed: the fuzz target fails iff the test case is falsified: every failure signal is recorded in the flag before it panics (a recovered or superseded panic is re-raised by the deferred consult) and the flag reaches checkOnce's verdict after the cleanups on every exit (shared with C02-R1, C02-R2)", func(r *Run) { ruleC02R1(r); ruleC02R2(r) }},
+			{"C13-R9", "exhaustion-stays-a-skip: running out of input is an invalidData panic raised by drawBits; no endGroup runs on the panic path (deferred), where its 'group did not use any data' assertion would replace that panic by a plain one and turn the skip into a failure", ruleNoDeferredEndGroup},
 		},
 	}
 }
@@ -983,4 +985,51 @@ func ruleEndGroupAssertExempt(r *Run) {
 		r.Check("(*recordedBits).endGroup#assert-exempts-discard", cs.Instr.Pos(), exempt(cs.Arg(0), p.facts(cs.Instr), 0), "the assertion holds trivially for a discarded group", "an assertion of endGroup ("+p.expr(cs.Arg(0))+") can fail for a discarded group: an attempt that is rejected before its first draw (input exhausted inside Custom/Filter, Skip before drawing) panics with an assertion, which is reported as a failure of the test case instead of a skip — and only on the stream kind this branch serves")
 	}
 	r.Floor("assertions in endGroup", n, 1)
+}
+
+// ruleNoDeferredEndGroup: endGroup asserts that a kept group used data. Called normally it is reached only after
+// the draws of the group returned; deferred (directly or inside a deferred function literal) it also runs while an
+// invalidData panic of the group's first draw unwinds (input exhausted, fail file truncated at that point, Skip), and
+// its assertion panic replaces that one: the test case is reported as failed instead of invalid.
+func ruleNoDeferredEndGroup(r *Run) {
+	p := r.P
+	n := 0
+	deferredLits := map[*ssa.Function]token.Pos{}
+	for _, fn := range p.allFuncs() {
+		for _, b := range fn.Blocks {
+			for _, in := range b.Instrs {
+				d, ok := in.(*ssa.Defer)
+				if !ok {
+					continue
+				}
+				if mc, ok := d.Call.Value.(*ssa.MakeClosure); ok {
+					if f, ok := mc.Fn.(*ssa.Function); ok {
+						deferredLits[f] = d.Pos()
+					}
+				} else if f, ok := d.Call.Value.(*ssa.Function); ok && f.Parent() != nil {
+					deferredLits[f] = d.Pos()
+				}
+			}
+		}
+	}
+	for _, fn := range p.allFuncs() {
+		for _, b := range fn.Blocks {
+			for _, in := range b.Instrs {
+				c, ok := in.(ssa.CallInstruction)
+				if !ok {
+					continue
+				}
+				key := p.calleeKey(c.Common())
+				if key != "invoke:bitStream.endGroup" && key != "(*recordedBits).endGroup" {
+					continue
+				}
+				n++
+				_, isDefer := in.(*ssa.Defer)
+				_, inLit := deferredLits[fn]
+				name := p.fnName(fn)
+				r.Check(name+"#endGroup-not-deferred", in.Pos(), !isDefer && !inLit, "endGroup is called on the normal path only", "endGroup is deferred in "+name+": it also runs while an invalidData panic raised by the group's first draw unwinds (input exhausted, truncated fail file, Skip before drawing); the group is then empty, endGroup's assertion panics and replaces the invalidData — the test case is reported as a failure instead of being skipped / ignored")
+			}
+		}
+	}
+	r.Floor("endGroup calls", n, 8)
 }
